@@ -481,3 +481,54 @@ def run_property(a):
 PROPERTY_EXTRAS = {}
 PROPERTY_LEVEL = {}
 PROPERTY_EXPLANATION = {}
+
+
+def run_c17(a):
+    """Bounded stand-in for C17 (see pyvc/bounded_c17.py)."""
+    from . import bounded_c17 as B
+
+    t0 = time.time()
+    seed = int(os.environ.get("VERIF_SEED", "0") or 0)
+    r = B.run(a.tier, seed, VERIF, VENV_PY)
+    lines = []
+    exit_code = 0
+    bad = list(r["interp_bad"]) + (r["real"]["bad"] if r["real"] else [])
+    if r["real"] is None:
+        print("CHECKER-ERROR: real-code run failed: " + r["real_err"])
+        exit_code = 3
+    if bad:
+        d = os.path.join(VERIF, "replays", "C17")
+        os.makedirs(d, exist_ok=True)
+        rp = os.path.join(d, "toposort_edges_case.json")
+        json.dump({"property": "C17", "target": "sleap_nn.inference.paf_grouping.toposort_edges", "custom": "c17",
+                   "obligation": "toposort_edges/permutation-in-parent-before-child-order", "inputs": {"edges": bad[0]["edges"]},
+                   "result": bad[0]["result"], "confirmed_on_real_code": bool(r["real"] and r["real"]["bad"])}, open(rp, "w"), indent=1)
+        lines.append("VIOLATION property=C17 replay=%s obligation=toposort_edges/permutation-in-parent-before-child-order" % rp)
+        exit_code = 1
+    n = r["interp_runs"] + (r["real"]["n"] if r["real"] else 0)
+    ev = {
+        "property_id": "C17", "tier": a.tier if a.tier in ("quick", "thorough") else "quick", "seed": seed, "level": "exploration",
+        "coverage": {
+            "evaluations": n,
+            "distinct_nontrivial": r["cases"],
+            "rule": "every rooted labelled tree on 2..%d nodes x every ordering of its edge list, plus %d seeded samples of %d-node trees with random node labels and edge orders; each case is run (a) through the symbolic interpreter on the real source of toposort_edges with the networkx contract model and (b) through the real function with the real networkx; a case is distinct by (edge list as ordered pairs); all have >= 1 edge, hence non-trivial" % (r["max_full"], r["sample_k"], r["sample_n"]),
+            "samples": r["samples"],
+            "exhaustive": False,
+            "bounded": "BOUNDED STAND-IN, not a proof: trees up to %d nodes exhaustively, %d nodes sampled" % (r["max_full"], r["sample_n"]),
+            "explanation": "toposort_edges delegates to networkx (DiGraph, topological_sort, bfs_edges); its own code is two comprehensions and list.index over a symbolic-length list, which the verifier's subset does not cover (no symbolic-length comprehensions), so the property is checked by bounded enumeration as the brief allows -- labelled bounded and not counted as proved",
+            "interp_runs": r["interp_runs"], "real_runs": r["real"]["n"] if r["real"] else 0,
+        },
+        "assumptions": ["bounded: tree sizes as stated in coverage.rule", "the networkx model in pyvc/lib_misc.py (used by the interpreter run) is validated only by agreement with the real library on these cases"],
+        "wall_s": round(time.time() - t0, 2),
+        "violations": len(bad),
+    }
+    os.makedirs(os.path.join(VERIF, "evidence"), exist_ok=True)
+    json.dump(ev, open(os.path.join(VERIF, "evidence", "C17.json"), "w"), indent=1)
+    print("C17 tier=%s (bounded stand-in): %d cases through the interpreter and %d through the real code, %d failing, %.1fs" % (
+        a.tier, r["interp_runs"], r["real"]["n"] if r["real"] else 0, len(bad), time.time() - t0))
+    for ln in lines:
+        print(ln)
+    return exit_code
+
+
+CUSTOM_RUNNERS = {"C17": run_c17}
